@@ -350,9 +350,10 @@ def _numpy_spec(ctx, target, xs, outs, nearest_required=False):
     if nearest_required and nn:
         i = int(np.argmax(nonnearest))
         _fail(ctx, "f16-pack-not-nearest", target, "result is adjacent but not nearest", {"target": target, "x": hex(int(x[i])), "out": hex(int(o[i]))})
-    ties = small & ~np.isinf(rv) & (np.abs(rnv - xv) == np.abs(other - xv)) & (rnv != other)
-    ctx.count(f"{target}:ties_in_sample", int(ties.sum()))
-    ctx.count(f"{target}:sample_differs_from_RNE", int((small & (rv != rnv)).sum()))
+    with np.errstate(all="ignore"):
+        ties = small & ~np.isinf(rv) & (np.abs(rnv - xv) == np.abs(other - xv)) & (rnv != other)
+        ctx.count(f"{target}:ties_in_sample", int(ties.sum()))
+        ctx.count(f"{target}:sample_differs_from_RNE", int((small & (rv != rnv)).sum()))
 
 
 def _fraction_spec(ctx, target, xs, outs, idxs):
@@ -779,7 +780,8 @@ def _python_target(ctx, drv, out_py, xs, model_unpack, quick):
     npk = len(xs) if not quick else min(len(xs), 260000)
     step = max(1, len(xs) // npk)
     sub = array.array("I", [xs[i] for i in range(0, len(xs), step)])
-    fl = np.frombuffer(sub.tobytes(), dtype=np.uint32).view(np.float32).astype(np.float64).tolist()
+    with np.errstate(all="ignore"):
+        fl = np.frombuffer(sub.tobytes(), dtype=np.uint32).view(np.float32).astype(np.float64).tolist()
     ser = mod.Serializer.new(2 * len(sub))
     add = ser.add_aligned_f16
     for v in fl:
